@@ -506,8 +506,14 @@ pub fn run_file(path: &str) {
             "case" => { name = parts[1].to_string(); }
             "config" => { case = Some(Case::new(&name, parse_cfg(&parts[1..]))); }
             "end" => {
-                if let Some(c) = case.take() { c.finish(); }
-                println!("{}", J::obj(vec![("case", J::s(&name)), ("end", J::Bool(true))]).to_string());
+                let mut edges: Vec<J> = Vec::new();
+                if let Some(c) = case.take() {
+                    for (held, acquired) in c.ctl.take_lock_edges() {
+                        edges.push(J::A(vec![J::A(held.iter().map(|h| J::s(h)).collect()), J::s(acquired)]));
+                    }
+                    c.finish();
+                }
+                println!("{}", J::obj(vec![("case", J::s(&name)), ("end", J::Bool(true)), ("lock_edges", J::A(edges))]).to_string());
             }
             _ => { case.as_mut().expect("event before config").event(&parts); }
         }
